@@ -34,6 +34,11 @@ class HistGen:
 
     def pick_obj(self, P, prefer_string=False):
         r = self.r
+        short = [i for i, o in enumerate(P) if len(o.base_str) <= 16]
+        if short and r.random() < 0.8:
+            c = [i for i in short if hasattr(P[i], '_fmts')] if prefer_string else short
+            if c:
+                return r.choice(c)
         if prefer_string:
             c = [i for i, o in enumerate(P) if hasattr(o, '_fmts')]
             if c:
@@ -67,6 +72,14 @@ class HistGen:
             name = r.choice([n for n in ('apply', 'remove', 'iadd', 'clip', 'tostr', 'find') if n in self.names] or ['tostr'])
         if name == 'new':
             return ['new', r.choice(self.kinds), g.text(0, self.maxlen), g.forms(0, 2)]
+        if name in ('add', 'iadd', 'join', 'replace', 'pad', 'expandtabs', 'from') and max(len(o.base_str) for o in P) > 16:
+            # keep texts short: exponential growth through self-referential replace/concat only slows the run down
+            if any(len(o.base_str) <= 16 for o in P) and r.random() < 0.5:
+                pass
+            else:
+                name = r.choice([n for n in ('slice', 'clip', 'strip', 'apply', 'remove', 'assign') if n in self.names] or ['new'])
+                if name == 'new':
+                    return ['new', r.choice(self.kinds), g.text(0, self.maxlen), g.forms(0, 2)]
         i = self.pick_obj(P, prefer_string=name in ('assign',))
         o = P[i]
         base = o.base_str
